@@ -182,6 +182,14 @@ def classify(unit, hspec, hres, workdir):
     if hspec.get("witnesses") is None:
         for d in out["covers_unsat"]:
             out["inconclusive"].append("vacuity witness unsatisfiable: %s" % d)
+    hstatus = hres.get("status")
+    if not checks:
+        out["inconclusive"].append("no checks reported (harness status %s: timeout, out of memory or CBMC error)" % hstatus)
+    elif hstatus != "Success" and not out["violations"] and not out["inconclusive"]:
+        out["inconclusive"].append("harness status %s without a failing check" % hstatus)
+    n_labelled = len(out["prop_asserts_ok"]) + len([v for v in out["violations"] if v.get("kind") != "panic"])
+    if checks and n_labelled == 0:
+        out["inconclusive"].append("no labelled property assertion was decided in this harness")
     if out["violations"]:
         out["status"] = "violation"
     elif out["inconclusive"]:
@@ -337,26 +345,30 @@ def check(pid, tier, seed, replay_only=None):
                 per_harness.append(rec)
                 if rec["covers_sat"]:
                     samples.append(dict(harness=h["name"], witness_satisfied=rec["covers_sat"][:4]))
-                # violations
+                # violations: known findings are matched per (harness, label); everything else is
+                # replayed ONCE per harness (the counterexample reproduces one of the failing labels)
+                labels = [x["label"] for x in rec["violations"]]
+                unlisted = []
                 for v in rec["violations"]:
-                    v["siblings"] = [x["label"] for x in rec["violations"]]
+                    v["siblings"] = labels
                     k = next((k for k in known if k["harness"] == h["name"] and k["label"] == v["label"]), None)
                     if k:
                         lines.append("KNOWN-FINDING: property=%s %s [%s %s]" % (pid, k["text"], h["name"], v["label"]))
                         v["known"] = True
-                        continue
-                    # concrete playback + native replay
+                    else:
+                        unlisted.append(v)
+                if unlisted:
+                    v = unlisted[0]
+                    v["siblings"] = [x["label"] for x in unlisted]
                     rp = replay_violation(unit, workdir, crate_dir, h, v, pid, tmo, mem)
-                    v["replay"] = rp
-                    if rp.get("reproduced"):
-                        n_viol += 1
-                        lines.append("VIOLATION property=%s replay=%s" % (pid, rp["path"]))
-                    elif rp.get("not_replayable"):
-                        # schedule/model-level counterexample without a native twin: report, flagged
+                    for x in unlisted:
+                        x["replay"] = dict(path=rp.get("path"), reproduced=rp.get("reproduced"), not_replayable=rp.get("not_replayable"))
+                    if rp.get("reproduced") or rp.get("not_replayable"):
                         n_viol += 1
                         lines.append("VIOLATION property=%s replay=%s" % (pid, rp["path"]))
                     else:
-                        rec["inconclusive"].append("counterexample for %s did not reproduce natively (model or stub suspect); see %s" % (v["label"], rp.get("path")))
+                        rec["inconclusive"].append("counterexample for %s did not reproduce natively (model or stub suspect); see %s" % (
+                            ",".join(v["siblings"]), rp.get("path")))
                         rec["status"] = "inconclusive"
         finally:
             if not os.environ.get("VERIF_KEEP_WORK"):
